@@ -69,13 +69,67 @@ def sha(s):
 def gen_corpus(rng, n):
     corpus = []
     for i in range(n):
-        if i % 2 == 0:
+        if i % 10 == 8:
+            # a description that holds a numpy array constant (hand-built, see npconst_dag)
+            m = rng.choice([2, 3, 4])
+            corpus.append({"kind": "npconst", "script": {"values": [rng.choice([1.0, 2.0, -0.5, 3.25]) for _ in range(m)],
+                                                         "k": rng.randrange(m)}})
+        elif i % 2 == 0:
             corpus.append({"kind": "py", "script": prog.Gen(rng, profile="py").script()})
         else:
             g = ftn.FGen(rng, memory_bias=True, two_types=rng.random() < 0.7, max_ops=12, neq=True,
                          struct_type=rng.random() < 0.2)
             corpus.append({"kind": "ftn", "script": g.script()})
     return corpus
+
+
+def npconst_dag(spec):
+    """A method whose description holds a numpy array CONSTANT that is copied into a variable, one element of which
+    is then assigned: 'w <- [1, 2, 3]; w[k] <- w[k] + 10*<dt>; <state>s <- w[0] + w[1] + ...; yield w'."""
+    import numpy as np
+    from dagrt.language import CodeBuilder, DAGCode
+    from pymbolic import var
+    vals = np.array(spec["values"], dtype=float)
+    with CodeBuilder("main") as cb:
+        cb("w", vals)
+        cb("w[%d]" % spec["k"], "w[%d] + 10*<dt>" % spec["k"])
+        cb("<state>s", " + ".join("w[%d]" % i for i in range(len(vals))))
+        cb.yield_state(var("w"), "w", var("<t>"), "final")
+        cb("<t>", "<t> + <dt>")
+    return DAGCode.from_phases_list([cb.as_execution_phase("main")], "main")
+
+
+def produce_npconst(item, variant):
+    from dagrt.codegen import PythonCodeGenerator
+    from dagrt.exec_numpy import NumpyInterpreter
+    spec = item["script"]
+    dag = npconst_dag(spec)
+
+    def interp():
+        it = NumpyInterpreter(dag, {})
+        it.set_up(0.0, 0.5, {"s": 0.0})
+        ev = []
+        for e in it.run(max_steps=2):
+            if type(e).__name__ == "StateComputed":
+                ev.append([float(x) for x in e.state_component])
+        return ev
+    out = {"python": None, "fortran": None, "fortran_instrumented": None, "interp": None}
+    if variant == "same-dag-after-other-configurations":
+        # the same description object has been RUN before (and lowered by another generator object)
+        try:
+            interp()
+            PythonCodeGenerator(class_name="Earlier")(dag)
+        except Exception:
+            pass
+    try:
+        out["python"] = PythonCodeGenerator(class_name="M")(dag)
+    except Exception as ex:
+        out["python"] = f"EXC {type(ex).__name__}"
+    try:
+        out["interp"] = json.dumps(interp())
+    except Exception as ex:
+        out["interp"] = f"EXC {type(ex).__name__}"
+    return out
 
 
 def variant_dag(script, variant, rng):
@@ -109,12 +163,17 @@ def variant_dag(script, variant, rng):
 def produce(item, variant, rng, others):
     """-> {"python": text|None, "fortran": text|None, "interp": text|None}"""
     from dagrt.codegen import PythonCodeGenerator
+    if item["kind"] == "npconst":
+        return produce_npconst(item, variant)
     script = item["script"]
     out = {"python": None, "fortran": None, "fortran_instrumented": None, "interp": None}
     nother = {"after-1-other": 1, "after-3-others": 3}.get(variant, 0)
     for k in range(nother):
         o = others[k % len(others)]
         try:
+            if o["kind"] == "npconst":
+                PythonCodeGenerator(class_name="Other")(npconst_dag(o["script"]))
+                continue
             PythonCodeGenerator(class_name="Other")(prog.build(o["script"]))
             if o["kind"] == "ftn":
                 ftn.generate(prog.build(o["script"]), o["script"], module="other")
@@ -313,6 +372,10 @@ def run_shard(shard, rec):
                         rec.violation(mech, f"{what} output under variant {v}, PYTHONHASHSEED={hs} differs from "
                                       f"identity/seed 0:\n{d}", {"script": item["script"], "kind": item["kind"],
                                                                   "variant": v, "hashseed": hs, "what": what})
+        if item["kind"] == "npconst":
+            rec.count("descriptions_with_numpy_array_constant")
+            rec.case(item["script"], nontrivial=False)
+            continue
         st = prog.stats(item["script"])
         rec.case(item["script"], nontrivial=st["ops"] >= 6 and nvar >= 2)
 
